@@ -163,6 +163,32 @@ def run(repo: Repo, rep: Report) -> None:
                     n_ok += 1
                 else:
                     deviating.append((f"{gname}, group_size={sizes}", n, edges, inst, diff, sizes, ret_ids))
+        # ---- grid forms (shape= / a 2-D size table): the reference schema on the row-major grid graph of *that* orientation ----
+        for h, w in ((2, 3), (3, 2), (1, 3), (2, 2)):
+            n = h * w
+            want_edges = sorted([(y * w + x, y * w + x + 1) for y in range(h) for x in range(w - 1)] + [(y * w + x, (y + 1) * w + x) for y in range(h - 1) for x in range(w)])
+            # the edge *order* is taken from the library's own _grid_graph (ALG-6 in C04 decides that it is this edge set)
+            gg = Instance(repo).w.call("_grid_graph", h, w)
+            edges = [tuple(e) for e in gg.attrs["edges"]]
+            if sorted(tuple(sorted(e)) for e in edges) != want_edges:
+                rep.finding("ALG-6", GRAPH, "_grid_graph", "grid graph", f"_grid_graph({h}, {w}) has edges {edges}; expected the row-major orthogonal grid graph")
+                continue
+            table = [[(2 if (y, x) == (0, 0) else None) for x in range(w)] for y in range(h)]
+            for form, kw, sizes in (("shape only", {"shape": (h, w)}, None), ("shape + constant size", {"shape": (h, w), "group_size": 2}, 2),
+                                    ("2-D size table", {"group_size": table}, [2] + [None] * (n - 1))):
+                inst = Instance(repo)
+                ret = inst.w.call("division_connected_variable_groups", inst.s, **kw)
+                refs, cons = ref_groups(n, edges, sizes, False)
+                same, diff = compare(inst, refs, cons)
+                ok_ret = isinstance(ret, Obj) and ret.attrs.get("__class__") == "IntArray2D" and tuple(ret.attrs.get("shape", ())) == (h, w)
+                ret_ids = [v.attrs.get("id") for v in ret.attrs["data"]] if isinstance(ret, Obj) and "data" in ret.attrs else None
+                if same and (not ok_ret or [LAST_MATCH.get(i) for i in (ret_ids or [])] != [("gid", k) for k in range(n)]):
+                    same, diff = False, (f"the returned value is {getattr(ret, 'attrs', {}).get('__class__')} of shape {getattr(ret, 'attrs', {}).get('shape')} holding "
+                                         f"{[LAST_MATCH.get(i) for i in (ret_ids or [])]}, not the {h}x{w} array of group ids in row-major order")
+                if same:
+                    n_ok += 1
+                else:
+                    deviating.append((f"{h}x{w} grid form ({form}), group_size={sizes}", n, edges, inst, diff, sizes, ret_ids))
     except Undecided as ex:
         rep.undecide("ENC-S", f"division_connected_variable_groups: {ex}")
         deviating = []
@@ -284,6 +310,61 @@ def run(repo: Repo, rep: Report) -> None:
     rep.assume("reference schema exact (DESIGN.md C07); uniform in the graph; native graph-division has its documented meaning")
 
 
+def _set_partitions(n: int):
+    def rec(i: int, blocks: List[List[int]]):
+        if i == n:
+            yield [list(b) for b in blocks]
+            return
+        for b in blocks:
+            b.append(i)
+            yield from rec(i + 1, blocks)
+            b.pop()
+        blocks.append([i])
+        yield from rec(i + 1, blocks)
+        blocks.pop()
+
+    yield from rec(0, [])
+
+
+def _partition_witness(inst: Any, ids: List[int], n: int, want_parts: Set[frozenset], budget_s: float = 25.0):
+    """("acc", partition, group ids): an invalid partition that the posted constraints realise (a satisfying extension exists);
+    ("rej", partition, None): a valid partition that no injective naming of its blocks realises; None: nothing found in the budget.
+    Each question is one Extender.sat call with all group ids fixed."""
+    from .encodings import Extender
+
+    ext = Extender(inst, budget_s)
+    parts = list(_set_partitions(n))
+    try:
+        # accepted-but-invalid first: blocks named after their own vertices (what a correct encoding produces), cheapest witnesses
+        for blocks in parts:
+            fs = frozenset(frozenset(b) for b in blocks)
+            if fs in want_parts:
+                continue
+            for names in itertools.product(*blocks):
+                if len(set(names)) < len(names):
+                    continue
+                gid = {ids[v]: names[k] for k, b in enumerate(blocks) for v in b}
+                if ext.sat(gid):
+                    return "acc", sorted(map(sorted, blocks)), [gid[i] for i in ids]
+        for blocks in parts:
+            fs = frozenset(frozenset(b) for b in blocks)
+            if fs not in want_parts:
+                continue
+            doms = [ext.doms[ids[b[0]]] for b in blocks]
+            found = False
+            for names in itertools.product(*doms):
+                if len(set(names)) < len(names):
+                    continue
+                if ext.sat({ids[v]: names[k] for k, b in enumerate(blocks) for v in b}):
+                    found = True
+                    break
+            if not found:
+                return "rej", sorted(map(sorted, blocks)), None
+    except TimeoutError:
+        return None
+    return None
+
+
 def _triage(rep: Report, label: str, devs: List[Any], with_borders: bool) -> None:
     undecided = None
     t0 = work_now()
@@ -297,7 +378,7 @@ def _triage(rep: Report, label: str, devs: List[Any], with_borders: bool) -> Non
         return 1 if isinstance(d[5], tuple) or (isinstance(d[5], list) and any(isinstance(x, tuple) for x in d[5])) else 0
 
     # instances with the caller's own size variables are the most expensive to project: they are tried last
-    for desc, n, edges, inst, diff, sizes, ret_ids in sorted(devs, key=lambda d: (symbolic(d), cyclic_first(d) if len(devs) > 20 else 1, d[1], has_sizes(d), len(d[2]))):
+    for desc, n, edges, inst, diff, sizes, ret_ids in sorted(devs, key=lambda d: (symbolic(d), cyclic_first(d) if len(devs) > 20 else 1, d[1], has_sizes(d) if d[1] <= 4 else 1 - has_sizes(d), len(d[2]))):
         if work_now() - t0 > 60:
             break
         symbolic = isinstance(sizes, tuple) or (isinstance(sizes, list) and any(isinstance(x, tuple) for x in sizes))
@@ -335,7 +416,17 @@ def _triage(rep: Report, label: str, devs: List[Any], with_borders: bool) -> Non
                 rep.finding("ENC-S", GRAPH, "_division_connected_variable_groups", f"{label} result", f"{label} [{desc}]: {diff}")
                 return
             ids = ret_ids
-        proj = projection(inst, ids, budget_s=8.0)
+        proj = projection(inst, ids, budget_s=8.0) if (with_borders or n <= 4) else None
+        if proj is None and not with_borders:
+            # too many group-id vectors to enumerate: decide partition by partition instead
+            wit = _partition_witness(inst, ids, n, want_parts)
+            if wit is not None:
+                kind, part, names = wit
+                rep.finding("ENC-S", GRAPH, "_division_connected_variable_groups", f"{label} encoding",
+                            f"{label} on [{desc}] (edges {edges}): deviates from the reference schema ({diff}) and "
+                            + (f"realises the partition {part} (group ids {names}), which is not a valid division" if kind == "acc" else
+                               f"cannot realise the partition {part} under any naming of its blocks, although it is a valid division"))
+                return
         if proj is None:
             undecided = f"{label} [{desc}]: deviates from the reference schema ({diff}); projection enumeration exceeded its budget"
             continue
